@@ -1,13 +1,16 @@
 CFG = {
     "jobs": lambda tier: [J("scaled", "c12", imports="Base Stream Inst Run RunHistStack"), J("prod", "c12-cli", needs_repo_bins=["mlar"]),
+                           # the C interface's extraction (bindings/C: linear extraction into the writers the file callback hands back)
+                           J("prod", "c12-capi", needs_repo_bins=["mla-bindings-c"], imports="Base Stream Inst Run RunC20 RunC20Read", shard=20),
                            # work package extract: the FileWriter pool, model-compared at the capacity of the source
                            J("prod", "c16-pool", needs_repo_bins=["mlar"], imports="Base Stream Inst Run RunC16Pool", shard=1)],
-    "run_modules": ["RunHistStack", "RunC16Pool"],
+    "run_modules": ["RunHistStack", "RunC16Pool", "RunC20", "RunC20Read"],
     "rule": "scaled constants: generated archives (as C01) read fully, then linear extraction into the subsets {empty, each singleton, all in "
             "reverse order, one random subset}; plus layer-less archives whose data part is cut at every 5th (quick) / every (thorough) position "
             "before and after the end-of-data marker with the footer kept (so that the archive still opens); non-trivial = content present or a cut; "
             "distinct = distinct (plan, subsets) or (archive, cut); plus, through the mlar binary, whole-archive extraction of archives of "
             "3 / 1001 / 1300 (thorough: also 999, 1000, 1500, 2500) files written interleaved in 2-3 rounds (more files than the extractor keeps open); "
+            "c12-capi: mla_roarchive_extract of libmla.so on archives of all four layer combinations, file callbacks that accept all / decline every second file (alternately before and after filling the writer structure) / decline the first after filling it: accepted writers receive exactly their file, declined ones nothing, rows model-compared (c20r_extract); "
             "c16-pool: 5 / 1001 / 1100 tiny members in interleaved rounds (every handle of the 1000-entry pool evicted and re-opened), every "
             "extracted file compared with the model run through the pool (Pool.extract_linear_pool at capacity 1000)",
     "exhaustive": {"quick": False, "thorough": False},
